@@ -28,6 +28,7 @@ package tls
 //@ func TransportParameters.Marshal
 //@   property C24
 //@   let n = len(tps)
+//@   modifies ghostall(tpstate)
 //@   requires nonnil: forall j in 0..n: tps[j] != nil
 //@   requires fits: forall j in 0..n: 0 <= tpid(val(tps[j])) && tpid(val(tps[j])) <= 4611686018427387903 && tpvlen(val(tps[j])) <= 4611686018427387903
 //@   requires walk: tppos(0) == 0 && forall j in 0..n: tppos(j+1) == tppos(j) + tphdr(tps[j]) + tpvlen(val(tps[j]))
